@@ -2,6 +2,7 @@ package main
 
 import (
 	"bufio"
+	"crypto/sha256"
 	"encoding/json"
 	"fmt"
 	"io"
@@ -54,6 +55,9 @@ type oraclePool struct {
 	procs []*oracleProc
 	next  atomic.Int64
 	ids   atomic.Int64
+	cmu   sync.Mutex
+	cache map[[32]byte]oracleAns // identical question (document + instances) -> answer
+	hits  atomic.Int64
 }
 
 func startOracle(r *vh.Run, n int) *oraclePool {
@@ -61,7 +65,7 @@ func startOracle(r *vh.Run, n int) *oraclePool {
 	if _, err := os.Stat(script); err != nil {
 		r.Fatal("oracle script: %v", err)
 	}
-	pool := &oraclePool{}
+	pool := &oraclePool{cache: map[[32]byte]oracleAns{}}
 	for i := 0; i < n; i++ {
 		cmd := exec.Command("python3-vt", script)
 		stdin, err := cmd.StdinPipe()
@@ -109,6 +113,31 @@ func startOracle(r *vh.Run, n int) *oraclePool {
 
 // Ask sends one request and waits for its answer.
 func (o *oraclePool) Ask(schema json.RawMessage, instances []json.RawMessage) (oracleAns, error) {
+	h := sha256.New()
+	h.Write(schema)
+	for _, i := range instances {
+		h.Write([]byte{0})
+		h.Write(i)
+	}
+	var key [32]byte
+	copy(key[:], h.Sum(nil))
+	o.cmu.Lock()
+	if a, ok := o.cache[key]; ok {
+		o.cmu.Unlock()
+		o.hits.Add(1)
+		return a, nil
+	}
+	o.cmu.Unlock()
+	a, err := o.ask(schema, instances)
+	if err == nil {
+		o.cmu.Lock()
+		o.cache[key] = a
+		o.cmu.Unlock()
+	}
+	return a, err
+}
+
+func (o *oraclePool) ask(schema json.RawMessage, instances []json.RawMessage) (oracleAns, error) {
 	p := o.procs[int(o.next.Add(1))%len(o.procs)]
 	if p.dead.Load() {
 		return oracleAns{}, fmt.Errorf("oracle process is gone")
